@@ -127,7 +127,8 @@ class Gen:
                 if k < 0.25:
                     parts.append("send('%s', delay=%d)" % (ev, self.rng.choice([1, 2, 3, 5])))
                 elif k < 0.45:
-                    parts.append("send('%s', v=x)" % ev)
+                    # (parameter names of every documented shape: an identifier may begin with an underscore)
+                    parts.append(self.rng.choice(["send('%s', v=x)", "send('%s', v=x)", "send('%s', v=x)", "send('%s', _v=x)"]) % ev)
                 elif k < 0.45 + self.p.p_notify:
                     parts.append(self.rng.choice(["notify('m%d', w=y)", "notify('m%d', w=y)", "notify('m%d', time=x)", "notify('m%d', event=y, state=x)"]) % self.rng.randint(0, 1))
                 else:
